@@ -494,6 +494,15 @@ func scenarios(thorough bool) []scen {
 		{name: "append-partial-then-complete", initial: map[string]string{a: line("", "a1")}, watch: true, bound: 1, steps: []step{
 			{op: "append", path: a, data: line("", "a2") + `{"l":"a`, pause: 100 * time.Millisecond}, {op: "notify", kind: "write", path: a},
 			{op: "append", path: a, data: `3"}` + "\n", pause: 100 * time.Millisecond}, {op: "notify", kind: "write", path: a}}},
+		// a partial line is read to EOF, completed (that read ends on a line boundary), and later another line is appended
+		{name: "partial-complete-then-append", initial: map[string]string{a: line("", "a1")}, watch: true, bound: 1, steps: []step{
+			{op: "append", path: a, data: line("", "a2") + `{"l":"a`, pause: 100 * time.Millisecond}, {op: "notify", kind: "write", path: a},
+			{op: "append", path: a, data: `3"}` + "\n", pause: 100 * time.Millisecond}, {op: "notify", kind: "write", path: a},
+			{op: "append", path: a, data: line("", "a4"), pause: 100 * time.Millisecond}, {op: "notify", kind: "write", path: a}}},
+		// the file ends in an unterminated line while idle maintenance rounds (500ms) close and reopen it; the line is completed afterwards
+		{name: "partial-idle-reopen-then-complete", initial: map[string]string{a: line("", "a1") + `{"l":"a`}, bound: 1, steps: []step{
+			{op: "append", path: a, data: `2"}` + "\n", pause: 1200 * time.Millisecond},
+			{op: "append", path: a, data: line("", "a3"), pause: 700 * time.Millisecond}}},
 		{name: "append-without-notification", initial: map[string]string{a: line("", "a1")}, bound: 1, steps: []step{
 			{op: "append", path: a, data: line("", "a2"), pause: 100 * time.Millisecond}}},
 		{name: "rotate-by-rename", initial: map[string]string{a: line("", "a1") + line("", "a2")}, sync: true, bound: 1, steps: []step{
